@@ -912,30 +912,51 @@ class Facts:
         self.hidden = {}
         self._apply_reviewed_view()
 
+    def _new_structs(self):
+        """structs of two or more fields that the reviewed tree does not have (tables/adts.json): {name: fields}; None when the
+        list of reviewed types is not available."""
+        if getattr(self, "_new_structs_cache", None) is not None:
+            return self._new_structs_cache or None
+        try:
+            with open(os.path.join(V, "tables", "adts.json")) as f_:
+                reviewed = set(json.load(f_))
+        except Exception:
+            self._new_structs_cache = {}
+            return None
+        structs = {}
+        for a in self.d["adts"]:
+            if a["name"] not in reviewed and not a.get("enum") and len(a["variants"]) == 1 and len(a["variants"][0]["fields"]) >= 2:
+                structs[a["name"]] = a["variants"][0]["fields"]
+        self._new_structs_cache = structs
+        return structs or None
+
     def _split_new_struct_locals(self):
         """A local of a struct type that the reviewed tree does not have (tables/adts.json), which the function only ever
         touches field by field (plus whole assignments from a struct literal or a constant of known field values), is a
         bundle of independent variables that were grouped after the review: it is split back into one local per field
         (`pending.len` becomes a variable of its own, named `pending.len`), so that every rule sees the variables it was
-        written for.  Nothing else is a candidate: a struct that is borrowed, copied, moved or handed to a call as a whole
-        stays as it is.  Returns {body path: [(local, struct)]} for the evidence."""
-        try:
-            with open(os.path.join(V, "tables", "adts.json")) as f_:
-                reviewed = set(json.load(f_))
-        except Exception:
-            return {}
-        structs = {}
-        for a in self.d["adts"]:
-            if a["name"] not in reviewed and not a.get("enum") and len(a["variants"]) == 1 and len(a["variants"][0]["fields"]) >= 2:
-                structs[a["name"]] = a["variants"][0]["fields"]
+        written for.  Nothing else is a candidate: a struct that is copied, moved or handed to a call as a whole stays as
+        it is.  (A reference to the whole value that is only used to reach its fields — what is left of `&mut self` once a
+        method of the new type has been inlined — counts as touching it field by field: `inlined` runs the split again on
+        its result.)  Returns {body path: [(local, struct)]} for the evidence."""
+        structs = self._new_structs()
         if not structs:
             return {}
+        done = {}
+        for bd in self.d["bodies"]:
+            r = self._split_body(bd, structs)
+            if r:
+                done[bd["path"]] = r
+        return done
+
+    @staticmethod
+    def _split_body(bd, structs):
         INT = re.compile(r"^(u8|u16|u32|u64|u128|usize|i8|i16|i32|i64|i128|isize|bool)$")
 
         def is_place(x):
             return isinstance(x, dict) and set(x.keys()) == {"l", "p"} and isinstance(x["p"], list) and isinstance(x["l"], int)
 
-        def places(x, out, skip=None):
+        def places(x, out):
             if is_place(x):
                 out.append(x)
                 return
@@ -945,81 +966,150 @@ class Facts:
             elif isinstance(x, list):
                 for v in x:
                     places(v, out)
-        done = {}
-        for bd in self.d["bodies"]:
-            cands = [l for l, loc in enumerate(bd["locals"]) if loc["ty"] in structs and l > bd["argc"]]
-            for L in cands:
-                flds = structs[bd["locals"][L]["ty"]]
-                ok = True
+
+        def fld0(q, skip=0):
+            return len(q["p"]) > skip and isinstance(q["p"][skip], dict) and "f" in q["p"][skip]
+        named = {e["p"]["l"] for e in bd["dbg"] if not e["p"]["p"]}
+        ndefs = {}
+        defstmt = {}
+        for blk in bd["blocks"]:
+            for st in blk["st"]:
+                if "lhs" in st and not st["lhs"]["p"]:
+                    ndefs[st["lhs"]["l"]] = ndefs.get(st["lhs"]["l"], 0) + 1
+                    defstmt[st["lhs"]["l"]] = st
+            if blk["t"]["k"] == "call" and not blk["t"]["dest"]["p"]:
+                ndefs[blk["t"]["dest"]["l"]] = ndefs.get(blk["t"]["dest"]["l"], 0) + 1
+        done = []
+        cands = [l for l, loc in enumerate(bd["locals"]) if loc["ty"] in structs and l > bd["argc"]]
+        for L in cands:
+            sty = bd["locals"][L]["ty"]
+            flds = structs[sty]
+            # references to the whole value held in single-assignment temporaries (and copies / re-borrows of those)
+            alias = set()
+            grew = True
+            while grew:
+                grew = False
                 for blk in bd["blocks"]:
                     for st in blk["st"]:
-                        if "lhs" not in st:
-                            ps = []
-                            places(st, ps)
-                            if any(q["l"] == L for q in ps):
-                                ok = False
+                        if "lhs" not in st or st["lhs"]["p"]:
+                            continue
+                        T = st["lhs"]["l"]
+                        if T in alias or T in named or T <= bd["argc"] or ndefs.get(T, 0) != 1:
                             continue
                         rv = st["rv"]
-                        if st["lhs"]["l"] == L and not st["lhs"]["p"]:
-                            if rv["k"] == "use" and "k" in rv["o"] and isinstance(rv["o"]["k"].get("struct"), dict):
-                                fv = rv["o"]["k"]["struct"].get("fields", {})
-                                if not all(f["n"] in fv and INT.match(f["ty"]) and re.match(r"^-?\d+$", str(fv[f["n"]])) for f in flds):
-                                    ok = False
-                            elif rv["k"] == "agg" and rv["kind"].get("adt") == bd["locals"][L]["ty"] and len(rv["ops"]) == len(flds) and rv["kind"].get("fields") is not None:
-                                pass
-                            else:
-                                ok = False
-                            ps = []
-                            places(rv, ps)
-                            if any(q["l"] == L for q in ps):
-                                ok = False
+                        src = None
+                        if rv["k"] == "ref":
+                            src = rv["p"]
+                            if (src["l"] == L and not src["p"]) or (src["l"] in alias and src["p"] == ["*"]):
+                                alias.add(T)
+                                grew = True
+                        elif rv["k"] == "use" and ("c" in rv["o"] or "m" in rv["o"]):
+                            src = rv["o"].get("c") or rv["o"].get("m")
+                            if src["l"] in alias and not src["p"]:
+                                alias.add(T)
+                                grew = True
+
+            def whole(q):
+                """does the place denote the whole value (not a field of it)?"""
+                if q["l"] == L:
+                    return not fld0(q)
+                if q["l"] in alias:
+                    return not (q["p"] and q["p"][0] == "*" and fld0(q, 1))
+                return False
+
+            def is_alias_def(st):
+                return "lhs" in st and not st["lhs"]["p"] and st["lhs"]["l"] in alias
+
+            def whole_target(q):
+                return (q["l"] == L and not q["p"]) or (q["l"] in alias and q["p"] == ["*"])
+            def behind(rv):
+                """the struct literal / constant a whole assignment takes its value from, through unnamed single-assignment
+                temporaries of the struct type (the result slot of an inlined constructor)."""
+                for _ in range(4):
+                    if rv["k"] == "use" and ("c" in rv["o"] or "m" in rv["o"]):
+                        q = rv["o"].get("c") or rv["o"].get("m")
+                        if not q["p"] and q["l"] not in named and q["l"] > bd["argc"] and ndefs.get(q["l"], 0) == 1 and q["l"] in defstmt \
+                                and bd["locals"][q["l"]]["ty"] == sty and q["l"] != L:
+                            rv = defstmt[q["l"]]["rv"]
                             continue
+                    break
+                return rv
+            ok = True
+            for blk in bd["blocks"]:
+                for st in blk["st"]:
+                    if "lhs" not in st:
                         ps = []
                         places(st, ps)
-                        if any(q["l"] == L and not (q["p"] and isinstance(q["p"][0], dict) and "f" in q["p"][0]) for q in ps):
+                        if any(q["l"] == L or q["l"] in alias for q in ps):
                             ok = False
+                        continue
+                    if is_alias_def(st):
+                        continue
+                    rv = behind(st["rv"]) if whole_target(st["lhs"]) else st["rv"]
+                    if whole_target(st["lhs"]):
+                        if rv["k"] == "use" and "k" in rv["o"] and isinstance(rv["o"]["k"].get("struct"), dict):
+                            fv = rv["o"]["k"]["struct"].get("fields", {})
+                            if not all(f["n"] in fv and INT.match(f["ty"]) and re.match(r"^-?\d+$", str(fv[f["n"]])) for f in flds):
+                                ok = False
+                        elif rv["k"] == "agg" and rv["kind"].get("adt") == sty and len(rv["ops"]) == len(flds) and rv["kind"].get("fields") is not None:
+                            pass
+                        else:
+                            ok = False
+                        ps = []
+                        places(rv, ps)
+                        if any(q["l"] == L or q["l"] in alias for q in ps):
+                            ok = False
+                        continue
                     ps = []
-                    places(blk["t"], ps)
-                    # (the drop of the whole value at the end of its scope is the drop of its fields: it stays where it is)
-                    if any(q["l"] == L and not (q["p"] and isinstance(q["p"][0], dict) and "f" in q["p"][0]) for q in ps) and \
-                            not (blk["t"]["k"] == "drop" and blk["t"]["p"]["l"] == L and not blk["t"]["p"]["p"]):
+                    places(st, ps)
+                    if any(whole(q) for q in ps):
                         ok = False
-                    if not ok:
-                        break
+                ps = []
+                places(blk["t"], ps)
+                # (the drop of the whole value at the end of its scope is the drop of its fields: it stays where it is)
+                if any(whole(q) for q in ps) and not (blk["t"]["k"] == "drop" and blk["t"]["p"]["l"] == L and not blk["t"]["p"]["p"]):
+                    ok = False
                 if not ok:
-                    continue
-                # split
-                base = len(bd["locals"])
-                new_of = {}
-                lname = next((e["n"] for e in bd["dbg"] if e["p"]["l"] == L and not e["p"]["p"]), None)
-                for i, f in enumerate(flds):
-                    new_of[f["n"]] = base + i
-                    bd["locals"].append({"ty": f["ty"]})
-                    if lname is not None:
-                        bd["dbg"].append({"n": "%s.%s" % (lname, f["n"]), "p": {"l": base + i, "p": []}, "ty": f["ty"]})
-                for blk in bd["blocks"]:
-                    out = []
-                    for st in blk["st"]:
-                        if "lhs" in st and st["lhs"]["l"] == L and not st["lhs"]["p"]:
-                            rv = st["rv"]
-                            if rv["k"] == "use":
-                                fv = rv["o"]["k"]["struct"]["fields"]
-                                for f in flds:
-                                    out.append({"lhs": {"l": new_of[f["n"]], "p": []}, "rv": {"k": "use", "o": {"k": {"int": str(fv[f["n"]]), "ty": f["ty"]}}}, "ln": st["ln"], "x": st.get("x", False)})
-                            else:
-                                for n_, o_ in zip(rv["kind"]["fields"], rv["ops"]):
-                                    out.append({"lhs": {"l": new_of[n_], "p": []}, "rv": {"k": "use", "o": o_}, "ln": st["ln"], "x": st.get("x", False)})
-                            continue
-                        out.append(st)
-                    blk["st"] = out
-                    ps = []
-                    places(blk["st"], ps)
-                    places(blk["t"], ps)
-                    for q in ps:
-                        if q["l"] == L and q["p"]:
-                            q["l"] = new_of[q["p"][0]["n"]]
-                            q["p"] = q["p"][1:]
-                done.setdefault(bd["path"], []).append((L, bd["locals"][L]["ty"]))
+                    break
+            if not ok:
+                continue
+            # split
+            base = len(bd["locals"])
+            new_of = {}
+            lname = next((e["n"] for e in bd["dbg"] if e["p"]["l"] == L and not e["p"]["p"]), None)
+            for i, f in enumerate(flds):
+                new_of[f["n"]] = base + i
+                bd["locals"].append({"ty": f["ty"]})
+                if lname is not None:
+                    bd["dbg"].append({"n": "%s.%s" % (lname, f["n"]), "p": {"l": base + i, "p": []}, "ty": f["ty"]})
+            for blk in bd["blocks"]:
+                out = []
+                for st in blk["st"]:
+                    if is_alias_def(st):
+                        continue
+                    if "lhs" in st and whole_target(st["lhs"]):
+                        rv = behind(st["rv"])
+                        if rv["k"] == "use":
+                            fv = rv["o"]["k"]["struct"]["fields"]
+                            for f in flds:
+                                out.append({"lhs": {"l": new_of[f["n"]], "p": []}, "rv": {"k": "use", "o": {"k": {"int": str(fv[f["n"]]), "ty": f["ty"]}}}, "ln": st["ln"], "x": st.get("x", False)})
+                        else:
+                            for n_, o_ in zip(rv["kind"]["fields"], rv["ops"]):
+                                out.append({"lhs": {"l": new_of[n_], "p": []}, "rv": {"k": "use", "o": o_}, "ln": st["ln"], "x": st.get("x", False)})
+                        continue
+                    out.append(st)
+                blk["st"] = out
+                ps = []
+                places(blk["st"], ps)
+                places(blk["t"], ps)
+                for q in ps:
+                    if q["l"] == L and q["p"]:
+                        q["l"] = new_of[q["p"][0]["n"]]
+                        q["p"] = q["p"][1:]
+                    elif q["l"] in alias and len(q["p"]) >= 2:
+                        q["l"] = new_of[q["p"][1]["n"]]
+                        q["p"] = q["p"][2:]
+            done.append((L, sty))
         return done
 
     def _resolve_data_renames(self):
@@ -1415,6 +1505,10 @@ class Facts:
             blocks.extend(cd["blocks"])
             inl.append(cb.path)
             inl.extend(getattr(cbi, "inlined", ()))
+        if inl and not _stack:
+            structs_ = self._new_structs()
+            if structs_:
+                self._split_body(d, structs_)      # what is left of `&mut self` of an inlined method of a new struct type
         nb = Body(d, self)
         nb.inlined = inl
         nb.origin = body
